@@ -145,7 +145,8 @@ def job_ast(item):
     from . import symast as SA
     prog = PROG; eng = Engine(prog); eng.deadline = deadline; S = Summary(); XP.init_decls(prog)
     ex0 = PathExec(eng, []); rtc = XP.mk_runtime(ex0); oracle = ER.Oracle(prog)
-    aspec = SA.AstSpec(prog, height) if not lite else SA.AstSpec(prog, height, fields=('a', 'b'), leaf=['Identity', 'Field', 'Index', 'Literal'],
+    fx = ['Function'] if 'Function' in forced else []
+    aspec = SA.AstSpec(prog, height, leaf=SA.LEAF + fx) if not lite else SA.AstSpec(prog, height, fields=('a', 'b'), leaf=['Identity', 'Field', 'Index', 'Literal'] + fx,
                                                               lit_spec=SY.DocSpec(depth=0, A=0, keys=(), strs=('', 'a'), nums=[0, 1]))
     dspec = SY.DocSpec(depth=ddepth, A=2, keys=('a', 'b'), strs=('', 'a'), nums=[0, 1, -1, 1.5])
     def body(ex):
@@ -253,8 +254,10 @@ def run(run):
             slots = child_slots(k); dd = 1 if k == 'Comparison' else 2
             if not slots: ajobs.append(('ast', k, (), 2, dd, dl, 10**7, True)); continue
             for c1 in ['Identity', 'Field', 'Index', 'Literal'] + SA.COMPOUND: ajobs.append(('ast', k, (c1,), 2, 1 if 'Comparison' in (k, c1) else dd, dl, 10**7, True))
+    for k in ('Subexpr', 'Or', 'And', 'Projection', 'Condition'): ajobs += [('ast', k, (None, 'Function'), 1, 2, dl, 10**7, True), ('ast', k, ('Function', None), 1, 2, dl, 10**7, True)]
+    ajobs.append(('ast', 'Not', ('Function',), 1, 2, dl, 10**7, True))
     run.bounds['symbolic ASTs'] = ('height 1: every compound node kind over leaf children ' + ('{Identity, Field in {a,b}, Index (any lexer-range i32), Literal (symbolic scalar)}' if quick else
                                    '{Identity, Field in {a,b,absent}, Index (any lexer-range i32), Literal (symbolic depth-1 value), Slice (symbolic start/stop/step)}; height 2 over the reduced leaf alphabet, sharded by top kind x first child kind')
-                                   + '; documents depth 2, arrays <= 2, keys {a,b} (depth 1 where a Comparison node is involved: deep equality is decided by C10)')
+                                   + '; each binary form and `!` also with a call of the total built-in type() as an operand; documents depth 2, arrays <= 2, keys {a,b} (depth 1 where a Comparison node is involved: deep equality is decided by C10)')
     run_jobs(run, ajobs + jobs, task, 'mirsym: symbolic ASTs and concrete expressions x symbolic documents vs reference evaluator')
     run.confirm_all(confirm)
